@@ -629,6 +629,8 @@ DOC_POOL = [
     '{"rules": [], "n": 1.5, "t": true, "z": null, "s": "hé"}', '{"a": 1}\r\n', "a: 1\r\nb: 2\r\n",
     '﻿{"rules": []}', '{"rules": []} trailing', '{"rules": [], "rules": [1]}',
     '{"rules": [{"id": "x", "actions": ["read"], "effect": "maybe", "resource": {"type": "doc"}}]}',
+    # flow mappings that both parsers accept but read differently (YAML 1.1 has no bare-exponent floats; tabs)
+    '{"rules": [], "n": 1e3}', '{"rules": [], "n": 1E+2, "m": [2e0]}', '{"rules": [],\t"n": 1}', '{"rules": [], "s": "a\\/b"}',
 ]
 DOC_NAMES = ["p.json", "p.yaml", "p.yml", "p.YAML", "p.Yml", "p.JSON", "p.txt", "p", "p.json.yaml", "p.yaml.json",
              "pyaml", "p.yamlx", ".yaml", "p.yaml.bak"]
